@@ -77,6 +77,12 @@ NAMES = [None, None, "water", "mol_1", "dimer"]
 SYMMS = [None, None, None, "c1", "C1", "c2v", "d2h", "cs"]
 
 
+PINNED = {
+    "Angstrom": [1.8897, 1.889725989, 1.88972612456506, 1.8897261328856432, 1.8897261328856432, 1.84, 1.9396, 1.9],
+    "Bohr": [1.0, 1.0, 1.0, 1.0000001, 0.999, 0.9501, 1.0499, 1.02],
+}
+
+
 def _coord(rng, base):
     k = rng.random()
     if base == 0:
@@ -93,7 +99,10 @@ def _coord(rng, base):
     return base + rng.uniform(-0.3, 0.3)
 
 
-def gen_arrays(rng, nat=None, max_frag=4, labels=True, allow_ghost=True, extras=True):
+FAR = [100.0, -2500.0, 5000.0, 1234.5, -777.25]     # |coordinate| stays below 10^4 (the sdf block has 10-character columns)
+
+
+def gen_arrays(rng, nat=None, max_frag=4, labels=True, allow_ghost=True, extras=True, far=False):
     """kwargs for qcelemental.molparse.from_arrays (JSON-serialisable)."""
     nat = nat or rng.choice([1, 1, 2, 2, 3, 3, 4, 5, 6, 8, 10, 12])
     units = rng.choice(["Angstrom", "Bohr"])
@@ -107,6 +116,10 @@ def gen_arrays(rng, nat=None, max_frag=4, labels=True, allow_ghost=True, extras=
     for p in pts:
         for c in p:
             geom.append(_coord(rng, c * spacing))
+    if far and rng.random() < 0.06:
+        # the whole molecule far from the origin (to_string neither recentres nor reorients)
+        off = [rng.choice(FAR) if rng.random() < 0.6 else 0.0 for _ in range(3)]
+        geom = [g + off[i % 3] for i, g in enumerate(geom)]
     elez = [rng.choice(ELEMENTS) for _ in range(nat)]
     kw = {"geom": geom, "elez": elez, "units": units}
     if allow_ghost and rng.random() < 0.6:
@@ -126,8 +139,10 @@ def gen_arrays(rng, nat=None, max_frag=4, labels=True, allow_ghost=True, extras=
         kw["fragment_charges"] = [rng.choice([None, None, -1, 0, 1, 2]) for _ in range(nfr)]
     if nfr > 1 and rng.random() < 0.3:
         kw["fragment_multiplicities"] = [rng.choice([None, None, 1, 2, 3]) for _ in range(nfr)]
-    if units == "Angstrom" and rng.random() < 0.4:
-        kw["input_units_to_au"] = rng.choice([1.8897, 1.889725989, 1.88972612456506, 1.8897261328856432])
+    if rng.random() < 0.4:
+        # the molecule pins its own length of one stored unit in Bohr; from_arrays accepts |pinned - default| < 0.05
+        # (default 1.0 for Bohr, 1/bohr2angstroms for Angstrom): values at the default, near it, and near both edges
+        kw["input_units_to_au"] = rng.choice(PINNED[units])
     if extras:
         nm = rng.choice(NAMES)
         if nm:
@@ -197,6 +212,12 @@ CORPUS_ARRAYS = [
     # a mass that is no isotope's (mass number -1: "{elea}" prints as nothing), an isotope, a ghost with a label
     {"geom": [0.0, 0.0, 0.0, 0.0, 0.0, 1.8, 0.0, 1.7, -0.3], "elez": [8, 1, 1], "units": "Bohr", "mass": [16.3, None, None],
      "elea": [None, 2, None], "real": [True, True, False], "elbl": ["", "", "_g"], "molecular_multiplicity": 2},
+    # stored in Bohr WITH a pinned input_units_to_au (at the default and off it), stored in Angstrom pinned near the window's edge:
+    # every stored/requested pairing x pinned/unpinned goes through molparse.to_string for every dtype (corpus_cfgs)
+    {"geom": [0.0, 0.0, -1.25, 0.0, 1.5, 0.75, 0.25, -1.5, 0.75], "elez": [8, 1, 1], "units": "Bohr", "input_units_to_au": 1.0,
+     "fix_com": True, "fix_orientation": True},
+    {"geom": [0.0, 0.0, 0.0, 0.0, 0.0, 2.5], "elez": [3, 1], "units": "Bohr", "input_units_to_au": 0.9625, "real": [True, False]},
+    {"geom": [0.0, 0.0, 0.0, 0.0, 0.0, 1.1], "elez": [9, 1], "units": "Angstrom", "input_units_to_au": 1.9396},
 ]
 
 
@@ -244,8 +265,13 @@ def impl_call(molrec, cfg, mol=None):
             text, data = mol.to_string(cfg["dtype"], **kwargs)
         else:
             text, data = to_string(molrec, cfg["dtype"], **kwargs)
+        # the same call without return_data (the default entry: a bare string) must give the same characters
+        kwargs["return_data"] = False
+        plain = mol.to_string(cfg["dtype"], **kwargs) if mol is not None else to_string(molrec, cfg["dtype"], **kwargs)
     except Exception as e:
         return ("Err", _ekind(e))
+    if plain != text:
+        return ("Ok", text, _canon_kw(data["keywords"]), {"without_return_data": plain})
     return ("Ok", text, _canon_kw(data["keywords"]))
 
 
@@ -578,6 +604,8 @@ def oracle(molrec, cfg, out):
             return f"raised {out[1]} on a supported dtype/unit combination"
         return None
     text, kw = out[1], out[2]
+    if len(out) > 3:
+        return f"the text returned without return_data differs from the text returned with it: {out[3]['without_return_data']!r}"
     try:
         r = read_text(d, text, kw)
     except Exception as e:
@@ -804,7 +832,7 @@ def history_spec(rng, live):
 def correspond(ctx):
     corr = Corr()
     corr.rule = ("validated molecules (from_arrays, and via Molecule -> from_schema) of 1-12 atoms with ghosts, labels, 1-4 fragments, "
-                 "charges, multiplicities, Bohr/Angstrom, pinned input_units_to_au, names, frame flags, symmetry, connectivity x all 14 "
+                 "charges, multiplicities, Bohr/Angstrom, input_units_to_au pinned (both stored units, values across the accepted window) or not, up to 5000 units from the origin, names, frame flags, symmetry, connectivity x all 14 "
                  "dtypes x unit spellings incl. nm/pm (+ families of hash-equal molecules differing in labels / frame flags / symmetry / name, one after the other) x width/precision x atom_format/ghost_format overrides; a case is non-trivial "
                  "when the implementation returned text (not an exception); distinct = distinct (molecule, configuration)")
     rng = ctx.rng
@@ -814,7 +842,7 @@ def correspond(ctx):
             cases.append(("corpus", a, cfg, "from_arrays"))
     nmol = 1200 if ctx.thorough else 200
     for k in range(nmol):
-        arrays, _ = gen_molrec(rng)
+        arrays, _ = gen_molrec(rng, far=True)
         via = "molecule" if k % 4 == 3 else "from_arrays"
         if via == "molecule":
             arrays.pop("input_units_to_au", None)
@@ -936,22 +964,25 @@ LEVEL_TEXT = (
     "coordinates, unit, total and per-fragment charge/multiplicity, any number of fragments), C08_block_text_states_the_atoms (nwchem, "
     "cfour, orca, madness, terachem: header lines / one 'label x y z' line per atom in order under the program's real/ghost spelling "
     "with the printed coordinates / trailer lines), C08_molpro_text_states_the_atoms (atoms between 'geometry={' and '}', dummy / charge / "
-    "spin cards after). The model is tied to the implementation on every run by BYTE-EXACT comparison of "
+    "spin cards after), C08_mrchem_text_states_the_molecule (five header lines stating charge, multiplicity and translate, one line per atom, "
+    "'$end', '}'), C08_gamess_text_states_the_molecule (' $data', title and symmetry cards, a blank card unless C1, one five-token card per atom: "
+    "name, atomic number - negative for a ghost -, printed coordinates; ' $end'). The model is tied to the implementation on every run by BYTE-EXACT comparison of "
     "the rendered text and of the keyword dictionary (all 14 dtypes, both entry points to_string and Molecule.to_string, incl. "
-    "exceptions raised), and an independent per-dtype reader re-derives atoms, spellings, coordinates, charge, multiplicity, fragment "
+    "exceptions raised, with and without return_data; stored Bohr/Angstrom x pinned input_units_to_au across the accepted window x "
+    "every requested unit for every dtype; molecules up to 5000 units from the origin), and an independent per-dtype reader re-derives atoms, spellings, coordinates, charge, multiplicity, fragment "
     "blocks and announced unit from the implementation's own output; call sequences on one molrec / one live Molecule are compared with "
     "the reversed sequence in a fresh interpreter, and families of hash-equal molecules (different labels, frame flags, symmetry, name) "
     "are written one after the other, each judged against its own record.")
 LEVEL_NOTE = (
     "Clause map: atoms once/in order/spelling -> atoms_listed_once_in_order + program_spellings (lines, 14 dtypes), on characters for "
-    "psi4, xyz, xyz+, qchem, nwchem, cfour, orca, madness, terachem; conversion and precision -> is_view + factor_table + "
+    "psi4, xyz, xyz+, qchem, nwchem, cfour, orca, madness, terachem, molpro, mrchem, gamess; conversion and precision -> is_view + factor_table + "
     "converted_value_nearest + printed_digits_nearest; charge/multiplicity -> chgmult_stated (+ fragments_stated; characters: psi4, xyz+, "
-    "qchem); announced unit -> unit_word_is_written + announced_unit_is_written_unit + sdf_is_angstrom. Gaps: gamess, mrchem, "
+    "qchem, mrchem); announced unit -> unit_word_is_written + announced_unit_is_written_unit + sdf_is_angstrom. Gaps: "
     "turbomole, sdf have theorems on structured lines only (their rendering to characters is definitional in the model and tied by the "
     "byte-exact correspondence and the Python reader, no theorem re-parses it); non-default atom_format/ghost_format only on lines. "
     "Trusted: Coq kernel + vm_compute; the hand-written line assembly (tied differentially); the translator; Z-level binary64 "
     "multiply/divide and '{:.Nf}' models (differentially exact, not proved against IEEE/CPython); the Gallina readers read_qchem / "
-    "read_block / read_molpro are specifications of how those programs read a block (hand-written); str(mass), conversion_factor for nm/pm and "
+    "read_block / read_molpro / read_block_by gamess_match are specifications of how those programs read a block (hand-written); str(mass), conversion_factor for nm/pm and "
     "guess_connectivity are taken from the implementation as external inputs. Scope: integral charges; ASCII; override templates "
     "without format specs; terachem/turbomole/sdf have no slot for charge/multiplicity and madness states only open/closed shell "
     "(the theorem says exactly that); requests outside {Bohr, Angstrom, nm, pm} are outside the property (e.g. units='au' writes "
